@@ -18,7 +18,7 @@ RULE = ("enumerated: for each chosen zone, every gap and overlap of its explicit
         "history-* streams: a wall-clock construction AFTER A HISTORY -- one case is a whole list of operations applied to one value "
         "(origins datetime()/parse()/parse with offset/instance()/naive()/from_timestamp() with every default or an explicit fold, in UTC, a named zone or a "
         "fixed offset; then set(tz=)/replace(tzinfo=)/set()/replace()/on()/at()/replace(fold=)/in_timezone()/add(h,m,s,us)/naive()/replace(tzinfo=None)), "
-        "25 shapes rotated over {start, middle, end-1us, end} of every chosen gap/overlap, so that the LAST construction lands on the transition wall time and its "
+        "28 shapes rotated over {start, middle, end-1us, end} of every chosen gap/overlap, so that the LAST construction lands on the transition wall time and its "
         "fold is whatever the earlier steps left on the instance; the value after every step is compared with Model/WallHistory.v (hist dispatch entry, in the model) "
         "and with the documented rules applied step by step by a stdlib-only ledger (the requested fold is carried; a moved value carries 0; an instant carries its own fold). "
         "non-trivial = distinct (zone, wall, fold, raise, entry) / distinct history.")
@@ -89,7 +89,7 @@ def cases(tier, seed):
 #   origins     ["datetime", zone|None, W, fold|None, raise]   pendulum.datetime(fields[, tz=zone][, fold=fold][, raise_on_unknown_times])
 #               ["parse", W, zone|None]  ["parse_off", W, offset_s]  ["instance", W, fold, zone|None]  ["naive", W, fold|None]
 #               ["from_timestamp", n, zone|None]
-#   later steps ["set_tz", zone] ["replace_tzinfo", zone] ["set", W] ["replace", W] ["on", W] ["at", W] ["replace_fold", f]
+#   later steps ["set_tz", zone] ["replace_tzinfo", zone] (pendulum timezone) ["set_tz_std", zone] ["replace_tzinfo_std", zone] (zoneinfo.ZoneInfo) ["set", W] ["replace", W] ["on", W] ["at", W] ["replace_fold", f]
 #               ["in_tz", zone] ["add", h, m, s, us] ["naive()"] ["replace_tzinfo_none"]
 # zone: IANA name or a fixed offset in seconds (int); None = the argument is omitted (UTC by default).  W: wall microseconds (the fields).
 FIXED_OFFS = [3600, -18000, 19800, 0, 34200, -12600]
@@ -127,7 +127,11 @@ def _shapes(Z, W, rnd, zs):
         ("other-zone", [["datetime", Z2, W, fe, 0], [retz[1 - p], Z]]),
         ("fixed-offset", [["datetime", off, W, None, 0], [retz[p], Z]]),
         ("fixed-offset", [["parse_off", W // T.MEG * T.MEG, offp], [retz[1 - p], Z]]),
+        ("fixed-offset", [["datetime", off, W, fe, 0], [retz[1 - p], Z]]),
         ("fixed-offset", [["datetime", None, W, None, 0], ["set_tz", off], [retz[p], Z]]),
+        # the zone is given as a standard-library tzinfo (zoneinfo.ZoneInfo): _safe_timezone maps it to pendulum's Timezone
+        ("std-tzinfo", [["datetime", None, W, None, 0], ["replace_tzinfo_std", Z]]),
+        ("std-tzinfo", [["datetime", None, W, fe, 0], ["set_tz_std", Z]]),
         # two hops: the fold has to survive the re-interpretation as well
         ("two-hops", [["datetime", None, Wd, None, 0], [retz[p], Z], ["on", W]]),
         ("two-hops", [["datetime", None, Wt, None, 0], [retz[p], Z], ["at", W]]),
@@ -159,7 +163,7 @@ def history_cases(tier, rnd, zs):
                 sh = _shapes(name, W, rnd, zs)
                 for j in range(3 if tier == "quick" else 1):      # thorough: every transition of every zone, one shape per probe (shapes rotate)
                     kind, ops = sh[k % len(sh)]
-                    k += 7                                   # 7 is coprime to the number of shapes: every shape meets every probe position
+                    k += next(q for q in (7, 11, 13, 17) if len(sh) % q)   # coprime to the number of shapes: every shape meets every probe position
                     out.append({"stream": "history-" + kind, "fn": "hist", "args": [ops]})
     return out
 
@@ -273,6 +277,10 @@ def _impl_history(pendulum, ops):
                 x, zone = x.set(tz=T.pzone(op[1])), op[1]
             elif k == "replace_tzinfo":
                 x, zone = x.replace(tzinfo=T.pzone(op[1])), op[1]
+            elif k == "set_tz_std":
+                x, zone = x.set(tz=T.ref_zone(op[1])), op[1]
+            elif k == "replace_tzinfo_std":
+                x, zone = x.replace(tzinfo=T.ref_zone(op[1])), op[1]
             elif k == "set":
                 x = x.set(*T.fields_of(op[1]))
             elif k == "replace":
@@ -335,6 +343,7 @@ def _rule(spec, W, f, r, quirks=()):
 
 
 _REF = {}
+_RETZ = ("set_tz", "replace_tzinfo", "set_tz_std", "replace_tzinfo_std")
 
 
 def _ref_history(ops, quirks=()):
@@ -381,7 +390,7 @@ def _ref_history_(ops, quirks=()):
             else:
                 w2, f2, o2 = T.ref_render(T.ref_zone(zone), U)
                 st = (w2, f2, o2, True)
-        elif k in ("set_tz", "replace_tzinfo"):
+        elif k in _RETZ:
             zone = op[1]
             st = _rule(zone, W, f, 0, quirks)
         elif k in ("set", "replace"):
@@ -483,7 +492,7 @@ def _zone_after(ops):
             zone = "UTC" if op[3] is None else op[3]
         elif k in ("naive", "naive()", "replace_tzinfo_none"):
             zone = None
-        elif k in ("set_tz", "replace_tzinfo", "in_tz"):
+        elif k in _RETZ or k == "in_tz":
             zone = op[1]
     return zone
 
@@ -494,7 +503,7 @@ def _enc_zone(spec, walls):
     return T.zone_enc(spec, min(us) - 100000, max(us) + 100000) + [1 if isinstance(spec, int) else 0]
 
 
-_ZONE_OPS = ("datetime", "parse", "parse_off", "instance", "from_timestamp", "set_tz", "replace_tzinfo", "in_tz")
+_ZONE_OPS = ("datetime", "parse", "parse_off", "instance", "from_timestamp", "in_tz") + _RETZ
 
 
 def _history_call(ops):
@@ -537,7 +546,7 @@ def _history_call(ops):
         elif k == "from_timestamp":
             zone = "UTC" if op[2] is None else op[2]
             enc += [3] + _enc_zone(zone, span(i) + [T.EPOCH_US + op[1] * T.MEG]) + [1 if zone == "UTC" else 0, op[1]]
-        elif k in ("set_tz", "replace_tzinfo"):
+        elif k in _RETZ:
             zone = op[1]
             enc += [4] + _enc_zone(zone, span(i))
         elif k in ("set", "replace"):
